@@ -446,6 +446,12 @@ def sample_mismatch_experiment(block: Block, sample: dict) -> dict:
         A :class:`dict` describing the mismatches. The entries of the dictionary lists the
         mismatches in the categories factors, constraints and crossings
     """
+    # A sample as returned by `synthesize_trials` has no column for the hidden
+    # derived factor that stands for a weighted factor; its levels have the
+    # same names as the visible factor's.
+    for f in block.design:
+        if isinstance(f.name, HiddenName) and f.name not in sample and f.name.name in sample:
+            sample = {**sample, f.name: sample[f.name.name]}
     res = {}
     for key in sample:
         if len(sample[key]) != block.trials_per_sample():
